@@ -85,7 +85,12 @@ type MapDataProvider[T any] struct {
 }
 
 func (m *MapDataProvider[T]) Get(key string) any {
-	return any(m.M[key])
+	v, ok := m.M[key]
+	if !ok {
+		// a missing key is absent (nil), also in typed maps where indexing would yield the zero value of T
+		return nil
+	}
+	return any(v)
 }
 
 // returns value + key used
